@@ -47,6 +47,7 @@ def errTo : Err → String
   | .assertion => "assertion"
   | .index => "index"
   | .outOfFuel => "fuel"
+  | .propFuel => "prop-fuel"
 
 def handle (line : String) : String :=
   match Sexp.parse line with
